@@ -20,6 +20,7 @@ type DevCfg struct {
 	Proto     string
 	NewDevice bool // build with uhppote.NewDevice rather than a struct literal
 	Doors     []string
+	TZ        string // the controller's configured time zone ("" = UTC for struct literals, nil = time.Local for NewDevice)
 }
 
 type ClientCfg struct {
@@ -42,10 +43,17 @@ func mkDevices(cfg ClientCfg) []uhppote.Device {
 	devices := []uhppote.Device{}
 	for _, d := range cfg.Devices {
 		addr := types.ControllerAddr{AddrPort: addrPort(d.Addr)}
+		var tz *time.Location
+		if d.TZ != "" {
+			tz, _ = time.LoadLocation(d.TZ)
+		}
 		if d.NewDevice {
-			devices = append(devices, uhppote.NewDevice(d.Name, d.ID, addr, d.Proto, d.Doors, nil))
+			devices = append(devices, uhppote.NewDevice(d.Name, d.ID, addr, d.Proto, d.Doors, tz))
 		} else {
-			devices = append(devices, uhppote.Device{Name: d.Name, DeviceID: d.ID, Address: addr, Protocol: d.Proto, Doors: d.Doors, TimeZone: time.UTC})
+			if tz == nil {
+				tz = time.UTC
+			}
+			devices = append(devices, uhppote.Device{Name: d.Name, DeviceID: d.ID, Address: addr, Protocol: d.Proto, Doors: d.Doors, TimeZone: tz})
 		}
 	}
 	return devices
